@@ -112,7 +112,7 @@ pub fn register(l: &mut Vec<Obl>) {
         });
     // hue / chroma configurations with symbolic lightness: the chromatic part (a', C', h', the wrap-around case split of
     // delta h' and mean h', T, R_T) is evaluated on constants by the real code, the lightness part stays symbolic
-    let hues = [15.0f64, 75.0, 135.0, 195.0, 255.0, 315.0];
+    let hues = [20.0f64, 75.0, 135.0, 195.0, 255.0, 315.0];
     for (i, h1) in hues.iter().enumerate() {
         for (j, h2) in hues.iter().enumerate() {
             let (h1, h2) = (*h1, *h2 + 7.0);
